@@ -3,6 +3,7 @@ package engine
 import (
 	"context"
 	"fmt"
+	"io"
 	"io/fs"
 	"strings"
 )
@@ -130,6 +131,9 @@ func (vm *VM) compile(ctx context.Context, text *text, s string, args ...interfa
 
 			text.buf = append(text.buf, cs...)
 		}
+	}
+	if p.lexer.incomplete() { // E.g. an unterminated quoted atom. More() takes it for the end of the text.
+		return io.ErrUnexpectedEOF
 	}
 	return nil
 }
